@@ -434,3 +434,5 @@ def check(case: dict[str, Any], rec: Any) -> None:
 
 
 FINDINGS: dict[str, Any] = {}
+
+LEVEL_NOTE += ' Rounds 13-14: the handle tier also over EVChargerPool and PVPool handles.'
